@@ -261,8 +261,14 @@ func checkC18(r *simkit.Run, h *History, keep bool, sessionTimeout time.Duration
 			active[e.rec.Client] = e.rec
 			lastActivity[e.rec.Client] = e.rec.At
 			switch e.rec.Op.Class {
-			case "commit", "rollback", "set-ac1", "quit":
+			case "commit", "rollback", "quit":
 				ending[e.rec.Client] = e.rec
+			case "set-ac1":
+				// ends a transaction only when autocommit was off (MySQL commits on the switch from 0 to 1;
+				// with autocommit on already nothing happens and a transaction opened with BEGIN stays open)
+				if !e.rec.AC {
+					ending[e.rec.Client] = e.rec
+				}
 			}
 			if e.rec.Op.Kind == "drop" {
 				ending[e.rec.Client] = e.rec
@@ -274,7 +280,7 @@ func checkC18(r *simkit.Run, h *History, keep bool, sessionTimeout time.Duration
 			switch {
 			case rec.Op.Class == "quit" || rec.Op.Kind == "drop" || h.Clients[rec.Client].Dead && rec == lastOp(h, rec.Client):
 				gone[rec.Client] = true
-			case rec.TxOpen && rec.Err == nil && (rec.Op.Class == "commit" || rec.Op.Class == "rollback" || rec.Op.Class == "set-ac1"):
+			case rec.TxOpen && rec.Err == nil && (rec.Op.Class == "commit" || rec.Op.Class == "rollback" || rec.Op.Class == "set-ac1" && !rec.AC):
 				// the transaction is over for the client: every connection it used must have been told
 				for k, o := range owner {
 					if o.client == rec.Client && o.txid == rec.TxID {
@@ -305,7 +311,7 @@ func checkC18(r *simkit.Run, h *History, keep bool, sessionTimeout time.Duration
 					touched[cl][ck] = true
 				}
 			}
-			isEnd := st.Kind == "commit" || st.Kind == "rollback" || (st.Kind == "set" && strings.Contains(strings.ToLower(st.SQL), "autocommit = 1"))
+			isEnd := st.Kind == "commit" || st.Kind == "rollback" || (st.Kind == "set" && strings.Contains(strings.ToLower(st.SQL), "autocommit = 1") && !st.Before.Autocommit)
 			if isEnd {
 				if o := owner[ck]; o != nil {
 					if ending[o.client] == nil && !gone[o.client] && sessionTimeout > 0 && st.Kind == "rollback" && st.At-lastActivity[o.client] >= sessionTimeout {
